@@ -37,10 +37,12 @@ def std_registry(kind: str) -> List[Dict[str, Any]]:
         # (a failure OUTSIDE any method body -> internal error)
         {'name': 'ctx_only', 'params': [P('ctx', ctx=True)], 'flavour': co, 'ctx': 'name'},
         # async dispatcher only: a coroutine method behind a plain (non-async) decorator
-        {'name': 'wrapped', 'params': [P('a', default=None)], 'flavour': 'wcoro' if kind == 'async' else 'func', 'ctx': 'none'},
+        {'name': 'wrapped', 'params': [P('a', default=None)], 'flavour': 'wcoro' if kind == 'async' else 'wfunc', 'ctx': 'none'},
         {'name': 'bad.get', 'params': [P('a', default=None)], 'flavour': av, 'ctx': 'view', 'ctor_raises': True},
         # a method name with a leading underscore (legal in JSON-RPC; registered under an explicit name)
         {'name': '_us', 'params': [P('a', default=None)], 'flavour': 'func', 'ctx': 'none'},
+        # a name under the 'rpc.' prefix (the protocol reserves it for extensions; an application may well register one)
+        {'name': 'rpc.ext', 'params': [P('a', default=None)], 'flavour': co, 'ctx': 'none'},
     ]
 
 
@@ -94,6 +96,9 @@ class _Gen:
         return {'value': draw(self.s_val)}
 
     def _rpc_error(self, draw):
+        if draw(self.s_bits) % 8 == 0:
+            # an application error class with its own constructor signature
+            return {'cls': 'QuotaError', 'code': None, 'message': None, 'data': {'value': {'limit': draw(self.s_three)}}}
         if draw(self.s_three) < 2:
             return {'cls': 'JsonRpcError', 'code': draw(self.s_code), 'message': draw(self.s_msg), 'data': self._data(draw)}
         return {'cls': draw(self.s_typed), 'code': None, 'message': draw(self.s_msg_or_none), 'data': self._data(draw)}
